@@ -10,12 +10,14 @@
         step_keeps : (forall h a, In h (operands o) -> hget s h = Some a -> K a) ->
                      G w -> step refuse L s o w = Ret r w' -> G w'.
 
+   The same walk covers the third layer of client calls (HHist3.step3, which embeds the first two
+   layers): [kp_step3] / [step3_keeps] with [operands3].
    No ownership rule, no accounting invariant, no legality is needed: the theorem is about calls that
    return.  Two instances are used:
    - K = everything, G = the allocator-protocol invariant of the event trace (HTrace_proofs.v, C13);
    - K = the cells reachable from the operands + the cells allocated by the call, G = "every other
      cell is what it was" (HFrame_proofs.v, C17). *)
-From CB Require Import Word Word_proofs PMem PItem HHeap HItems HOps HHist.
+From CB Require Import Word Word_proofs PMem PItem HHeap HItems HOps HHist HHist2 HHist3.
 From CB Require Import HRef_proofs HCont_proofs HRead_proofs HCopy_proofs.
 From Coq Require Import Lia ZArith List.
 Import ListNotations.
@@ -33,6 +35,20 @@ Definition operands (o : op) : list nat :=
   | OTagSet t x => [t; x]
   | OTagItem t => [t]
   | OIncref h | ODecref h | OCopy h | OSerSize h | OSerialize h _ | OSerAlloc h => [h]
+  | _ => []
+  end.
+
+(* the operand handles of a call of the third layer (HHist3.op3) *)
+Definition operands3 (o : op3) : list nat :=
+  match o with
+  | O3Old o => operands o
+  | O3SetHandleNew h _ | O3SetHandleShorten h _ | O3SetUint _ h _ | O3Mark _ h | O3SetFloat _ h _
+  | O3SetCtrl h _ | O3SetBool h _ | O3Move h | O3IntermediateDecref h | O3SerializeTyped _ h _
+  | O3Preds h | O3Vals h => [h]
+  | O3PushMove a x => [a; x]
+  | O3MapAddMove m k v => [m; k; v]
+  | O3TagSetMove t x => [t; x]
+  | O3BuildTagMove _ x => [x]
   | _ => []
   end.
 
@@ -789,6 +805,127 @@ Proof.
     eapply kp_bindT; [apply kp_free; exact Hb|]. intros _. apply kp_ret. exact I.
 Qed.
 
+(* ---------------- the third layer of client calls (HHist3.step3) ---------------- *)
+Lemma kp_lift3 s (m : M (cstate * out)) : kp m T -> kp (lift3 s m) T.
+Proof. intros H. unfold lift3. eapply kp_bindT; [exact H|]. intros r. apply kp_ret. exact I. Qed.
+Lemma kp_newh s (m : M (option addr)) : kp m optK -> kp (newh s m) T.
+Proof. intros Hm. unfold newh. eapply kp_bindT; [exact Hm|]. intros r. apply kp_ret. exact I. Qed.
+Lemma kp_set_ctrl_at a v : K a -> kp (set_ctrl_at a v) T.
+Proof.
+  intros Ka. unfold set_ctrl_at. apply kp_bind_rd; [exact Ka|]. intros rc n Hn. cbn [fst snd].
+  destruct n; try apply kp_fail. apply kp_wr; [exact Ka|exact I].
+Qed.
+
+Theorem kp_step3 s o :
+  (forall h a, In h (operands3 o) -> hget (base s) h = Some a -> K a) -> kp (step3 refuse L s o) T.
+Proof.
+  intros Hop.
+  assert (H1 : forall h a, operands3 o = [h] -> hget (base s) h = Some a -> K a).
+  { intros h a E Ha. apply (Hop h a); [rewrite E; left; reflexivity|exact Ha]. }
+  destruct o as [o|text|h bytes|h n|iw|iw h v|neg h|fw|fw h bits| |h v|h b|b| | |h|a x|m k v|t x|v x|h|bytes|k h n|h|h];
+    cbn [step3 operands3] in *.
+  - (* the 26 calls of the first layer *)
+    unfold old3. destruct (forallb (is_set s) (op_reads o)); [|apply kp_fail].
+    apply kp_lift3. apply kp_step. exact Hop.
+  - apply kp_lift3. unfold new_definite_string_op. apply kp_newh. apply kp_new_definite_string.
+  - apply kp_lift3. unfold set_handle_new. destruct (hget (base s) h) as [a|] eqn:Eh; [|apply kp_ret; exact I].
+    pose proof (H1 h a eq_refl Eh) as Ka.
+    eapply kp_bind; [apply kp_malloc_data|]. intros [d|] Hd; [|apply kp_ret; exact I].
+    apply kp_bind_rd; [exact Ka|]. intros rc nd Hn. cbn [fst snd].
+    destruct nd as [neg iw v|fw bits|v|text data bs|text hdr arr cap chunks|indef data al elems|indef data al pairs|v c];
+      try apply kp_fail.
+    destruct data; [apply kp_fail|].
+    eapply kp_bindT; [apply kp_wr; [exact Ka|cbn [nodeK]; exact Hd]|]. intros _. apply kp_ret. exact I.
+  - apply kp_lift3. unfold set_handle_shorten. destruct (hget (base s) h) as [a|] eqn:Eh; [|apply kp_ret; exact I].
+    pose proof (H1 h a eq_refl Eh) as Ka.
+    apply kp_bind_rd; [exact Ka|]. intros rc nd Hn. cbn [fst snd].
+    destruct nd as [neg iw v|fw bits|v|text data bs|text hdr arr cap chunks|indef data al elems|indef data al pairs|v c];
+      try apply kp_fail.
+    destruct (n <=? len bs); [|apply kp_fail].
+    eapply kp_bindT; [apply kp_wr; [exact Ka|cbn [nodeK] in *; exact Hn]|]. intros _. apply kp_ret. exact I.
+  - unfold new_int. eapply kp_bindT; [apply kp_malloc; exact I|]. intros r. apply kp_ret. exact I.
+  - unfold set_uint. destruct (hget (base s) h) as [a|] eqn:Eh; [|apply kp_ret; exact I].
+    pose proof (H1 h a eq_refl Eh) as Ka.
+    apply kp_bind_rd; [exact Ka|]. intros rc nd Hn. cbn [fst snd]. destruct nd; try apply kp_fail.
+    eapply kp_bindT; [apply kp_assert|]. intros _.
+    eapply kp_bindT; [apply kp_wr; [exact Ka|exact I]|]. intros _. apply kp_ret. exact I.
+  - unfold mark_int. destruct (hget (base s) h) as [a|] eqn:Eh; [|apply kp_ret; exact I].
+    pose proof (H1 h a eq_refl Eh) as Ka.
+    apply kp_bind_rd; [exact Ka|]. intros rc nd Hn. cbn [fst snd]. destruct nd; try apply kp_fail.
+    eapply kp_bindT; [apply kp_wr; [exact Ka|exact I]|]. intros _. apply kp_ret. exact I.
+  - unfold new_float. eapply kp_bindT; [apply kp_malloc; exact I|]. intros r. apply kp_ret. exact I.
+  - unfold set_float. destruct (hget (base s) h) as [a|] eqn:Eh; [|apply kp_ret; exact I].
+    pose proof (H1 h a eq_refl Eh) as Ka.
+    apply kp_bind_rd; [exact Ka|]. intros rc nd Hn. cbn [fst snd]. destruct nd; try apply kp_fail.
+    eapply kp_bindT; [apply kp_assert|]. intros _.
+    eapply kp_bindT; [apply kp_wr; [exact Ka|exact I]|]. intros _. apply kp_ret. exact I.
+  - unfold new_ctrl. apply kp_lift3. apply kp_newh. unfold new_ctrl_item. apply kp_malloc. exact I.
+  - unfold set_ctrl. destruct (hget (base s) h) as [a|] eqn:Eh; [|apply kp_ret; exact I].
+    pose proof (H1 h a eq_refl Eh) as Ka.
+    eapply kp_bindT; [apply kp_set_ctrl_at; exact Ka|]. intros _. apply kp_ret. exact I.
+  - unfold set_bool. destruct (hget (base s) h) as [a|] eqn:Eh; [|apply kp_ret; exact I].
+    pose proof (H1 h a eq_refl Eh) as Ka.
+    apply kp_bind_rd; [exact Ka|]. intros rc nd Hn. cbn [fst snd]. destruct nd; try apply kp_fail.
+    eapply kp_bindT; [apply kp_assert|]. intros _.
+    eapply kp_bindT; [apply kp_wr; [exact Ka|exact I]|]. intros _. apply kp_ret. exact I.
+  - unfold build_bool. apply kp_lift3. apply kp_newh. apply kp_build_ctrl.
+  - unfold new_ctrl_set. apply kp_lift3. apply kp_newh. unfold new_ctrl_item.
+    eapply kp_bind; [apply kp_malloc; exact I|]. intros [a|] Ha; [|apply kp_ret; apply optK_none].
+    eapply kp_bindT; [apply kp_set_ctrl_at; apply Ha; reflexivity|]. intros _. apply kp_ret. exact Ha.
+  - unfold new_ctrl_set. apply kp_lift3. apply kp_newh. unfold new_ctrl_item.
+    eapply kp_bind; [apply kp_malloc; exact I|]. intros [a|] Ha; [|apply kp_ret; apply optK_none].
+    eapply kp_bindT; [apply kp_set_ctrl_at; apply Ha; reflexivity|]. intros _. apply kp_ret. exact Ha.
+  - unfold move_op. destruct (hget (base s) h) as [a|] eqn:Eh; [|apply kp_ret; exact I].
+    pose proof (H1 h a eq_refl Eh) as Ka.
+    eapply kp_bindT; [apply kp_move; exact Ka|]. intros _. apply kp_ret. exact I.
+  - unfold push_move. destruct (hget (base s) a) as [p|] eqn:Ea; [|apply kp_ret; exact I].
+    destruct (hget (base s) x) as [q|] eqn:Ex; [|apply kp_ret; exact I].
+    assert (Kp : K p) by (eapply Hop; [left; reflexivity|exact Ea]).
+    assert (Kq : K q) by (eapply Hop; [right; left; reflexivity|exact Ex]).
+    destruct (is_set s x); [|apply kp_fail].
+    eapply kp_bindT; [apply kp_move; exact Kq|]. intros _.
+    eapply kp_bindT; [apply kp_array_push; assumption|]. intros b. apply kp_ret. exact I.
+  - unfold map_add_move. destruct (hget (base s) m) as [p|] eqn:Em; [|apply kp_ret; exact I].
+    destruct (hget (base s) k) as [q|] eqn:Ek; [|apply kp_ret; exact I].
+    destruct (hget (base s) v) as [r|] eqn:Ev; [|apply kp_ret; exact I].
+    assert (Kp : K p) by (eapply Hop; [left; reflexivity|exact Em]).
+    assert (Kq : K q) by (eapply Hop; [right; left; reflexivity|exact Ek]).
+    assert (Kr : K r) by (eapply Hop; [right; right; left; reflexivity|exact Ev]).
+    destruct (is_set s k && is_set s v); [|apply kp_fail].
+    eapply kp_bindT; [apply kp_move; exact Kq|]. intros _.
+    eapply kp_bindT; [apply kp_move; exact Kr|]. intros _.
+    eapply kp_bindT; [apply kp_map_add; assumption|]. intros b. apply kp_ret. exact I.
+  - unfold tag_set_move. destruct (hget (base s) t) as [p|] eqn:Et; [|apply kp_ret; exact I].
+    destruct (hget (base s) x) as [q|] eqn:Ex; [|apply kp_ret; exact I].
+    assert (Kp : K p) by (eapply Hop; [left; reflexivity|exact Et]).
+    assert (Kq : K q) by (eapply Hop; [right; left; reflexivity|exact Ex]).
+    destruct (is_set s x); [|apply kp_fail].
+    eapply kp_bindT; [apply kp_move; exact Kq|]. intros _.
+    eapply kp_bindT; [apply kp_tag_set; assumption|]. intros _. apply kp_ret. exact I.
+  - unfold build_tag_move. destruct (hget (base s) x) as [q|] eqn:Ex; [|apply kp_ret; exact I].
+    pose proof (H1 x q eq_refl Ex) as Kq.
+    destruct (is_set s x); [|apply kp_fail].
+    eapply kp_bindT; [apply kp_move; exact Kq|]. intros _.
+    apply kp_lift3. apply kp_newh. apply kp_build_tag. exact Kq.
+  - unfold intermediate_decref. destruct (hget (base s) h) as [a|] eqn:Eh; [|apply kp_ret; exact I].
+    pose proof (H1 h a eq_refl Eh) as Ka.
+    eapply kp_bindT; [apply kp_decref; exact Ka|]. intros _. apply kp_ret. exact I.
+  - unfold build_string0. apply kp_lift3. apply kp_newh. apply kp_build_string.
+  - unfold serialize_typed. destruct (hget (base s) h) as [a|] eqn:Eh; [|apply kp_ret; exact I].
+    pose proof (H1 h a eq_refl Eh) as Ka.
+    destruct (memN a (unset s)); [apply kp_fail|].
+    apply kp_bind_rd; [exact Ka|]. intros rc nd Hn.
+    eapply kp_bindT; [apply kp_assert|]. intros _.
+    eapply kp_bindT; [apply kp_serialize; exact Ka|]. intros [[wr bs]|]; [apply kp_ret; exact I|apply kp_fail].
+  - unfold preds3. destruct (hget (base s) h) as [a|] eqn:Eh; [|apply kp_ret; exact I].
+    pose proof (H1 h a eq_refl Eh) as Ka.
+    apply kp_bind_rd; [exact Ka|]. intros rc nd Hn. apply kp_ret. exact I.
+  - unfold vals3. destruct (hget (base s) h) as [a|] eqn:Eh; [|apply kp_ret; exact I].
+    pose proof (H1 h a eq_refl Eh) as Ka.
+    destruct (memN a (unset s)); [apply kp_fail|].
+    apply kp_bind_rd; [exact Ka|]. intros rc nd Hn. apply kp_ret. exact I.
+Qed.
+
 End Abs.
 
 (* ------------------------------------------------------------------------------------------ *)
@@ -850,6 +987,15 @@ Proof.
   intros Hop C E.
   exact (proj1 (kp_step refuse K kp1 kp1_ret kp1_fail kp1_bind kp1_rd kp1_wr kp1_touch kp1_free kp1_malloc kp1_realloc
                         kp1_next_dep kp1_decref_fuel L s o Hop w r w' C E)).
+Qed.
+
+Theorem step3_keeps s o w r w' :
+  (forall h a, In h (operands3 o) -> hget (base s) h = Some a -> K a) ->
+  G w -> step3 refuse L s o w = Ret r w' -> G w'.
+Proof.
+  intros Hop C E.
+  exact (proj1 (kp_step3 refuse K kp1 kp1_ret kp1_fail kp1_bind kp1_rd kp1_wr kp1_touch kp1_free kp1_malloc kp1_realloc
+                         kp1_next_dep kp1_decref_fuel L s o Hop w r w' C E)).
 Qed.
 
 End Gen.
